@@ -49,8 +49,11 @@ Data == << Series(<< <<"__name__","m">>, <<"a","x">>, <<"b","1">> >>, [i \in 1..
            Series(<< <<"__name__","n">>, <<"a","x">> >>, [i \in 1..8 |-> Smp(i - 1, "f", 2)]),
            Series(<< <<"__name__","n">>, <<"a","y">> >>, [i \in 1..8 |-> Smp(i - 1, "f", 4)]) >>
 
+\* the long-lived engine of a history: a plain engine, or a distributed engine over two long-lived remote
+\* (local) engines that hold the series of even and of odd index of the growing storage
+EngineOf(h) == IF Cardinality({i \in 1..Len(h) : h[i].op = "exec"}) % 2 = 0 THEN "plain" ELSE "dist"
 ScnOf(h) == Scn("hist", "C20", TickMs, Data, <<>>, 0, 0, 0, 3, 0)
-            @@ [q |-> "history", cfg |-> [hist |-> h, queries |-> Queries, windows |-> Windows]]
+            @@ [q |-> "history", cfg |-> [hist |-> h, queries |-> Queries, windows |-> Windows, engine |-> EngineOf(h)]]
 \* a finished history contains at least one append between two executions of the same query and window
 NonTrivial(h) == \E i, j, k \in 1..Len(h) : i < j /\ j < k /\ h[i].op = "exec" /\ h[k].op = "exec" /\ h[j].op = "append"
                      /\ h[i].q = h[k].q /\ h[i].w = h[k].w
